@@ -400,6 +400,13 @@ def api_pools():
     b = HeapB(); x = b.var("x"); y = b.var("y"); s2 = b.kun("NthRoot", x, 2); s3 = b.kun("NthRoot", x, 3); tt = b.nary("Add", x, b.bun("Logarithm", y, q(2)))
     qq = b.nary("Multiply", s3, s3, s3)
     pool("roots", b, [s2, qq, tt], [P(x=4, y=1), P(x=-8, y=2), P(x=0, y=1), P(x=1, y=-1), P(x=1, y=0)], ["x", "y"])
+    # 9. Power whose base CONTAINS variables and evaluates to exactly one at a point
+    b = HeapB(); x = b.var("x"); y = b.var("y"); pxy = b.bin("Power", x, y); lin = b.bin("Minus", b.nary("Multiply", b.const(2), x), b.const(1)); pl = b.bin("Power", lin, x)
+    sm = b.nary("Add", pxy, b.nary("Multiply", b.const(5), x))
+    pool("powerone", b, [pxy, pl, sm], [P(x=1, y=3), P(x=2, y=2), P(x=1, y=-1), P(x=0, y=1)], ["x", "y"])
+    # 10. an odd number (3) of directly negated factors in one product
+    b = HeapB(); x = b.var("x"); y = b.var("y"); w = b.var("w"); m3 = b.nary("Multiply", b.un("Negation", x), b.un("Negation", y), b.un("Negation", w), y)
+    pool("negations", b, [m3], [P(x=2, y=3, w=5), P(x=-1, y=1, w=0)], ["x", "y", "w"], switch=[{"r": m3, "v": "x"}])
     # 8. a user-built n-ary node with a child whose simplification ENLARGES the domain (Power(x, 2) => NthPower(x, 2)), shared into a
     #    product: if any simplification rewrote the user's own node in place, evaluation would stop raising where it must
     b = HeapB(); x = b.var("x"); y = b.var("y"); w = b.var("w"); pw = b.bin("Power", x, b.const(2)); s = b.nary("Add", pw, y); z = b.nary("Multiply", s, w)
